@@ -1,4 +1,5 @@
 import AnsiModel.StrLike
+import AnsiModel.Render
 /-
   AnsiModel.Obj — the primitives the *statement-by-statement* translation of object-mutating methods
   is written in (`harness/pyobj.py` → `AnsiModel/Generated/Methods.lean`).
@@ -99,6 +100,23 @@ def pySplit (s : Str) (sep : Option Str) (maxsplit : Int) (r : Bool) : Except Ex
   | some sp => .ok (if r then Py.rsplitSep s sp maxsplit else Py.splitSep s sp maxsplit)
   | none => .ok (if r then Py.rsplitWs s maxsplit else Py.splitWs s maxsplit)
 
+/-- truth value of a variable that holds `None` or a string -/
+def truthyOptStr : Option Str → Bool
+  | some s => !s.isEmpty
+  | none => false
+
+/-- `a or b` as a value, for `a` a string or `None` and `b` a string -/
+def optStrOr (a : Option Str) (b : Str) : Str :=
+  match a with
+  | some s => if s.isEmpty then b else s
+  | none => b
+
+/-- `int(s)`; ValueError unless `s` is an integer literal (ASCII, as in the model) -/
+def pyInt (s : Str) : Except Exc Int :=
+  match Py.int s with
+  | some i => .ok i
+  | none => .error (.py .valueError)
+
 /-- `l[i] = v`; IndexError outside `-len ≤ i < len` -/
 def setIdx {α : Type} (l : List α) (i : Int) (v : α) : Except Exc (List α) :=
   let j := if i < 0 then (l.length : Int) + i else i
@@ -176,6 +194,11 @@ def del (f : Fmts) (k : Int) : Except Exc Fmts :=
   else match f.get? k.toNat with
     | some _ => .ok (f.erase k.toNat)
     | none => .error .key
+
+/-- a call into a hand-modelled method: its Python exception, if any, is the translated method's -/
+def liftPy {α : Type} : Except PyErr α → Except Exc α
+  | .ok a => .ok a
+  | .error e => .error (.py e)
 
 /-- `sorted(d.keys(), reverse=True)` -/
 def keysDesc (f : Fmts) : List Int := (f.keys.reverse).map Int.ofNat
